@@ -544,7 +544,7 @@ def rand_end(rng, start, kind):
         return None
     if kind == 'dur':
         if start[0] == 'date':
-            return ('dur', rng.choice([86400, 172800, 604800]))
+            return ('dur', rng.choice([0, 86400, 172800, 604800]))     # an explicit zero DURATION is not a missing one
         return ('dur', rng.choice([0, 1800, 3600, 5400, 7200, 86400, 90000]))
     if start is None:
         start = rand_start(rng, rng.choice(['date', 'float', 'utc', 'zone']))
@@ -648,6 +648,10 @@ CORPUS = [
     dict(kind='VEVENT', start=('date', date(2024, 5, 1)), end=None, alarms=[dict(trigger=('r', 3600), repeat=1, duration=82800)]),
     dict(kind='VEVENT', start=('date', date(2024, 5, 1)), end=('at', ('date', date(2024, 5, 3))),
          alarms=[dict(trigger=('r', -1800), related='END', repeat=4, duration=1800)]),
+    # an explicit zero DURATION on an all-day start: the end is the start itself, not the RFC default of one day
+    dict(kind='VEVENT', start=('date', date(2024, 5, 1)), end=('dur', 0), alarms=[dict(trigger=('r', -3600), related='END'), dict(trigger=('r', 0), related='END', repeat=1, duration=3600)]),
+    dict(kind='VTODO', start=('date', date(2024, 5, 1)), end=('dur', 0), alarms=[dict(trigger=('r', -3600), related='END')]),
+    dict(kind='VEVENT', start=('utc', datetime(2024, 5, 1, 10, 0)), end=('dur', 0), alarms=[dict(trigger=('r', 600), related='END')]),
     # repaired: lower-case RELATED=start was anchored to the end
     dict(kind='VEVENT', start=('date', date(2020, 3, 29)), end=None, alarms=[dict(trigger=('r', -86400), related='start')]),
 ]
